@@ -204,7 +204,10 @@ def check_missing(chk, story, conns, refd, defd, replay, stats):
 
 
 def check_play(chk, story, E, recs, replay, stats):
+    tainted = False          # a navigation failed half-way earlier: position may be ahead of what is shown
     for k, rc in enumerate(recs):
+        if rc["obs"][0] == "exc" and rc["obs"][1] != "IndexError":
+            tainted = True
         v, b = rc["view"], rc.get("before")
         if v is None:
             continue
@@ -233,6 +236,11 @@ def check_play(chk, story, E, recs, replay, stats):
             if tgt == JOIN:
                 if chain:
                     chk.report("join-choice-entered-a-passage", f"'-> @join' from {b['pid']} entered {chain}", dict(replay, step=k))
+                # (not judged in the half-navigated state a failed navigation leaves - position ahead of what is shown)
+                if rc["obs"][0] == "ok" and not tainted and (v["pid"] != b["pid"] or v["cur"] != b["pid"]):
+                    chk.report("join-choice-changed-passage",
+                               f"'-> @join' taken in {b['pid']} left the game in {v['cur']} showing {v['pid']}: a transition "
+                               "that is no edge ('@join' is not a passage reference)", dict(replay, step=k))
                 stats["join_choices"] += 1
                 continue
             prev, first = b["pid"], True
@@ -433,6 +441,49 @@ JOIN_POSITIONS = [
 ]
 
 
+def gen_join_mix(r):
+    """'-> @join' choices mixed, in any order, with ordinary choices inside @if/@elif/@else branches and @for bodies
+    (nested up to two levels): every ordinary one must be an edge whatever stands before it."""
+    n = [0]
+
+    def choices(ind, loopvar=None):
+        out = []
+        for _ in range(r.randint(1, 4)):
+            n[0] += 1
+            lab = f"C{n[0]}" + (" {" + loopvar + "}" if loopvar and r.random() < 0.5 else "")
+            mark = r.choice("+*")
+            cond = "{True} " if r.random() < 0.2 else ""
+            tg = "@join" if r.random() < 0.45 else r.choice(["A", "B", "Start", "A"])
+            out.append(f"{ind}{mark} {cond}[{lab}] -> {tg}")
+        return out
+
+    def block(ind, depth):
+        k = r.random()
+        if k < 0.55:
+            out = [f"{ind}@if {r.choice(['True', 'a > 0', 'a < 0'])}:", f"{ind}    text"] + choices(ind + "    ")
+            if depth < 2 and r.random() < 0.4:
+                out += block(ind + "    ", depth + 1)
+            if r.random() < 0.5:
+                out += [f"{ind}@elif {r.choice(['True', 'a == 1'])}:"] + choices(ind + "    ")
+            if r.random() < 0.5:
+                out += [f"{ind}@else:"] + choices(ind + "    ")
+            return out + [f"{ind}@endif"]
+        out = [f"{ind}@for i in [1, 2]:", f"{ind}    row {{i}}"] + choices(ind + "    ", "i")
+        if depth < 2 and r.random() < 0.4:
+            out += block(ind + "    ", depth + 1)
+        return out + [f"{ind}@endfor"]
+
+    lines = [":: Start", "~ tr = _state.get('tr', []) + ['Start']", "~ a = 1", "[Start]"]
+    for _ in range(r.randint(1, 2)):
+        lines += block("", 1)
+    lines += choices("") + ["@join", "after the marker"]
+    if r.random() < 0.5:
+        lines += block("", 1)
+    lines += ["+ [Again] -> Start", "", ":: A", "~ tr = _state.get('tr', []) + ['A']", "[A]", "+ [Back] -> Start", "",
+              ":: B", "~ tr = _state.get('tr', []) + ['B']", "[B]", "+ [Back] -> Start", ""]
+    return "\n".join(lines)
+
+
 def edit_undefined(story, r):
     """Redirect some targets (any depth) to undefined passages; returns the edited copy and the new names."""
     st = copy.deepcopy(story)
@@ -508,6 +559,24 @@ def run(tier: str, seed: int) -> int:
                 continue
             add_case(st_join, src_join, k_join + 1, True, "join-position")
 
+        # generated mixtures of join and ordinary choices inside blocks: graph comparison and play
+        for k_mix in range(40 if tier == "quick" else 400):
+            sub = rng.randrange(10 ** 9)
+            r = random.Random(sub)
+            src_mix = gen_join_mix(r)
+            try:
+                st_mix = R.compile_story(src_mix)
+            except Exception:  # noqa
+                stats["compile_failed"] += 1
+                continue
+            E_mix, _, _ = add_case(st_mix, src_mix, sub, True, "join-mix")
+            stats["join_mix"] = stats.get("join_mix", 0) + 1
+            ops = [("choose_valid", r.randint(0, 7)) for _ in range(r.randint(2, 6))]
+            recs, _ = R.run_history(st_mix, ops)
+            check_play(chk, st_mix, E_mix, recs, {"subseed": sub, "story_source": src_mix, "ops": [x["op"] for x in recs[1:]],
+                                                  "obs": [x["obs"] for x in recs[1:]]}, stats)
+            chk.count(("join-mix", sub), True)
+
         # (c) emitted kinds
         emitted_kinds_phase(chk, stats)
 
@@ -534,6 +603,12 @@ def run(tier: str, seed: int) -> int:
             for h in range(n_hist):
                 ops = [("goto_valid", r.randint(0, 20)) if r.random() < 0.12 else ("choose_valid", r.randint(0, 5))
                        for _ in range(r.randint(3, n_ops))]
+                # transitions after undo / redo / a load (fresh engine or the same one) count as well
+                ops = [r.choice([("undo",), ("redo",), ("reload",), ("save",), ("load",)]) if r.random() < 0.15 else o
+                       for o in ops]
+                if g.joins and r.random() < 0.4:
+                    ops = [("choose_text", "Enter " + r.choice(g.joins), 0)] + \
+                          [("choose_text", "Join", r.randint(0, 5)) if o[0] == "choose_valid" and r.random() < 0.6 else o for o in ops]
                 recs, _ = R.run_history(story, ops)
                 replay = {"subseed": sub, "story_source": src, "ops": [x["op"] for x in recs[1:]],
                           "obs": [x["obs"] for x in recs[1:]]}
